@@ -259,6 +259,13 @@ pub fn dotted(e: &Expr) -> Option<String> {
         Expr::Path(p) if p.path.segments.len() == 1 => Some(p.path.segments[0].ident.to_string()),
         Expr::Field(f) => match &f.member {
             Member::Named(m) => Some(format!("{}.{}", dotted(&f.base)?, m)),
+            // tuple member of a place expression (`bounds[2].1`): only ever used as the KEY of a slice parameter
+            // binding (or a free slice variable); never translated structurally
+            Member::Unnamed(i) => Some(format!("{}.{}", dotted(&f.base)?, i.index)),
+        },
+        // element of a place expression selected by an integer literal (`bounds[2]`), same remark
+        Expr::Index(ix) => match &*ix.index {
+            Expr::Lit(syn::ExprLit { lit: syn::Lit::Int(n), .. }) => Some(format!("{}[{}]", dotted(&ix.expr)?, n.base10_digits())),
             _ => None,
         },
         Expr::Reference(r) => dotted(&r.expr),
